@@ -115,6 +115,8 @@ def c20_rf6(run):
 def c20_rf21(run):
     rf_mir2c.rf21(run)
     run.min_instances('RF21', 8)
+    rf_vocab.rf37(run, 'mir2c', ('MIR_module2c',))
+    run.min_instances('RF37', 3)
 
 
 def c11_vocab(run):
@@ -131,6 +133,9 @@ def c10_vocab(run):
     run.min_instances('RF7c', 30)
     rf_vocab.rf22(run)
     run.min_instances('RF22', 1)
+    rf_vocab.rf22b(run)
+    rf_vocab.rf37(run, 'mir', ('MIR_output', 'MIR_output_item', 'MIR_output_insn', 'MIR_output_op', 'MIR_output_module'))
+    run.min_instances('RF37', 6)
     rf_vocab.rf15(run)
     run.min_instances('RF15', 3)
 
